@@ -326,7 +326,7 @@ def run(prog, rep):
     rep.check(good and src_ok, "VAL-1", "Property.merge extends with source values", "[v for v in other.values if ...]",
               "Property.merge does not extend with a plain selection of other.values", pm.where,
               witness="merged Property gains values the source does not have / misses some")
-    cv = [c for c in calls_in(pc.node) if call_name(c) == "%s._convert_value_input" % pc.params[0]]
+    cv = [c for c in calls_in(pc.node) if call_name(c).split(".")[-1] == "_convert_value_input"]
     good = len(cv) == 1 and unparse(cv[0].args[0]) == "%s.values" % pc.params[1]
     rep.check(good, "VAL-1", "Property.merge_check validates source.values", "ok",
               "merge_check validates something else than the source's values", pc.where)
